@@ -121,7 +121,7 @@ def drain_discipline(ctx):
                   f'`{src(st)}` takes request entries out of `{recv.attr}` and drops them: a caller whose request was still '
                   'queued is not woken up - it waits the full 10 s and gets TimeoutError instead of a prompt connection error', f)
     if n < 3:
-        raise AnchorMissing('drains of txq / pending / active_requests not found in disconnect')
+        raise AnchorMissing('drains of txq / pending / active_requests not found in disconnect', violation='frappy.client.SecopClient.disconnect:all three request containers are drained')
 
 
 def _has_timeout(call):
@@ -194,7 +194,7 @@ def shutdown_protocol(ctx):
     joins = [i for c in calls_in(f.node) if call_attr(c) == 'join' and src(c.func.value) in ('self._txthread', 'self._rxthread') for i in cfg.node_of(c)]
     drains = [i for c in calls_in(f.node) if call_attr(c) == 'popitem' and 'active_requests' in src(c.func) for i in cfg.node_of(c)]
     if not joins or not drains:
-        raise AnchorMissing('joins / active_requests drain not found in disconnect')
+        raise AnchorMissing('joins / active_requests drain not found in disconnect', violation='frappy.client.SecopClient.disconnect:joins and drain present')
     ok = not (cfg.reach(drains) & set(joins))
     ctx.check(ok, f'{f.qualname}:waiters released after the workers stopped', f.node, 'no join is reachable after the drain of active_requests',
               'waiters are released before the worker threads were joined: a late reply can be delivered to an entry that was already released', f)
